@@ -487,3 +487,54 @@ def dot(ctx, F):
             seq = [d[1][2] for d in disp]
             ok = seq in (['0', '0', '1', '1'], ['0', '1', '0', '1']) or (seq.count('0') == seq.count('1'))
         (ctx.ok if ok else ctx.bad)('C19.R4', 'write_children', 'label->index pairs of the node\'s own children_iter()' if ok else 'write_children prints something else than the node\'s (label, child) pairs', b.span)
+        # one statement per edge: every write prints `label->child` in this order, and a separator follows exactly the entries that are not the
+        # last one (positions First and Middle of with_position) -- otherwise two edge statements run together or a dangling separator appears
+        import re as _re
+        site = 'write_children#statements'
+        writes = []
+        for bb, t in b.calls():
+            c = Callee(t['func'])
+            if c.name != 'write_fmt':
+                continue
+            a = R.call_args(bb)
+            fa = [x for x in walk(a[1]) if is_call(x, 'Arguments::new', 'Arguments::new_v1', 'Arguments::from_str', 'Arguments::new_const')]
+            if len(fa) != 1:
+                writes = None
+                break
+            tmpl = fa[0][2][0]
+            text = _re.sub(r'\\x[0-9a-fA-F]{2}', '', str(tmpl[1])[2:-1]) if tmpl[0] == 'const' and isinstance(tmpl[1], str) and str(tmpl[1]).startswith('b"') else None
+            arr = [x for x in fa[0][2][1:] if x[0] == 'agg' and x[1] == 'array']
+            shown = [x[2][0] for x in (arr[0][2] if arr else ()) if is_call(x, 'Argument::new_display', 'Argument::new_debug')]
+            pos = None
+            for l in literals(b, R, bb):
+                if l[0] == 'is' and len(l) > 2 and l[1][0] == 'field' and l[1][2] == '0' and is_call(l[1][1], 'Iterator::next'):
+                    pos = set(l[2])
+            writes.append((text, shown, pos, t['span']))
+        if writes is None or len(writes) == 0 or any(w[0] is None for w in writes):
+            ctx.undecided('C19.R4', site, 'edge statements are not written by format strings over the items of with_position()', b.span)
+        else:
+            problems = []
+            with_sep = set()
+            covered = set()
+            for text, shown, pos, sp in writes:
+                if not (len(shown) == 2 and shown[0][0] == 'field' and shown[0][2] == '0' and shown[1][0] == 'field' and shown[1][2] == '1' and
+                        s(shown[0][1]) == s(shown[1][1]) and shown[0][1][0] == 'field' and shown[0][1][2] == '1'):
+                    problems.append('a statement does not print the label followed by the child of one (label, child) pair')
+                    continue
+                if not text.startswith('->'):
+                    problems.append('label and child are not joined by "->" (%r)' % text)
+                if pos is None:
+                    problems.append('a statement is not selected by the position of the entry')
+                    continue
+                covered |= pos
+                if text[2:].strip(' ') != '' or text[2:] != '':
+                    with_sep |= pos
+            if not problems:
+                if covered != {'First', 'Middle', 'Last', 'Only'}:
+                    problems.append('positions %s print no statement' % sorted({'First', 'Middle', 'Last', 'Only'} - covered))
+                elif with_sep != {'First', 'Middle'}:
+                    problems.append('a separator follows the entries at positions %s instead of First and Middle' % sorted(with_sep))
+            if problems:
+                ctx.bad('C19.R4', site, '; '.join(sorted(set(problems)))[:300], b.span)
+            else:
+                ctx.ok('C19.R4', site, 'every entry prints `label->child`; a separator follows exactly the entries that are not the last', b.span)
